@@ -458,3 +458,28 @@ M("c07-silent-with", "C07", DSP, "    info_dumper = open(info_file, \"wb\")\n   
 M("c07-silent-rename-helper-var", "C07", DSP, "    aggregator.close()\n    tmp_gff_printer.close()\n    tmp_extended_gff_printer.close()\n    sqanti_t2t_printer.close()",
   "    for writer in (aggregator, tmp_gff_printer):\n        pass\n    aggregator.close()\n    tmp_extended_gff_printer.close()\n    sqanti_t2t_printer.close()\n    tmp_gff_printer.close()",
   expect="silent", note="close calls reordered")
+M("c07-revert-stat-restore", "C07", DSP, "                self.alignment_stat_counter = EnumStats(alignment_stat_file)\n                return", "                return", rule="R5",
+  note="revert: skip path of collect_reads does not restore the alignment statistics")
+
+# ---------------------------------------------------------------- C10
+M("c10-revert-known-reset", "C10", DSP, "    GraphBasedModelConstructor.detected_known_isoforms = set()\n", "", rule="S1",
+  note="revert: class-level registry of detected known isoforms never reset")
+M("c10-revert-stat-reset", "C10", DSP, "        self.all_read_groups = set()\n        self.alignment_stat_counter = EnumStats()\n        if self.args.resume",
+  "        self.all_read_groups = set()\n        if self.args.resume", rule="S1", note="revert: alignment statistics accumulate over experiments")
+M("c10-revert-sticky-flag", "C10", DSP, "            self.preset_monointronic_polya or self.args.requires_polya_for_construction,",
+  "            self.args.require_monointronic_polya or self.args.requires_polya_for_construction,", rule="S1", note="revert: sticky polyA requirement")
+M("c10-new-class-cache", "C10", "src/long_read_assigner.py", "class LongReadAssigner:\n    def __init__(self, gene_info, params, quick_mode=False):\n        self.gene_info = gene_info",
+  "class LongReadAssigner:\n    score_cache = {}\n\n    def __init__(self, gene_info, params, quick_mode=False):\n        LongReadAssigner.score_cache[params.delta] = gene_info.start\n        self.gene_info = gene_info",
+  rule="S1", note="a new class-level cache written at run time")
+M("c10-reset-conditional", "C10", DSP, "        self.all_read_groups = set()\n        self.alignment_stat_counter = EnumStats()\n        if self.args.resume",
+  "        self.all_read_groups = set()\n        if not self.args.read_assignments:\n            self.alignment_stat_counter = EnumStats()\n        if self.args.resume", rule="S1",
+  note="reset made conditional")
+M("c10-groups-accumulate", "C10", DSP, "        total_assignments, polya_found, self.all_read_groups = self.load_read_info(saves_file)",
+  "        total_assignments, polya_found, groups = self.load_read_info(saves_file)\n        self.all_read_groups.update(groups)", expect="silent",
+  note="update after an unconditional fresh write in the same iteration: still independent")
+M("c10-groups-accumulate-noreset", "C10", DSP, None, None, rule="S1", note="read groups accumulate across experiments",
+  edits=[(DSP, "        total_assignments, polya_found, self.all_read_groups = self.load_read_info(saves_file)",
+          "        total_assignments, polya_found, groups = self.load_read_info(saves_file)\n        self.all_read_groups.update(groups)"),
+         (DSP, "        self.all_read_groups = set()\n        self.alignment_stat_counter = EnumStats()\n        if self.args.resume", "        self.alignment_stat_counter = EnumStats()\n        if self.args.resume")])
+M("c10-silent-instance-state", "C10", "src/graph_based_model_construction.py", "        self.transcript2transcript = []\n\n    def get_transcript_id(self):",
+  "        self.transcript2transcript = []\n        self.seen_paths = set()\n\n    def get_transcript_id(self):", expect="silent", note="new per-instance state")
